@@ -139,6 +139,8 @@ pub enum RealFn {
     AllInf,
     /// Sphere plus 250: a known optimum far from zero.
     OffsetSphere,
+    /// Sum of |x_i|: tells positions apart at every scale (1e-170 and 1e-300 have different values; a sphere squares both to 0).
+    AbsSum,
 }
 
 pub const REAL_FNS: [RealFn; 6] = [
@@ -182,6 +184,7 @@ impl Real {
             }
             RealFn::Plateau => x.iter().map(|v| (v.abs() * 2.0).floor()).sum::<f64>(),
             RealFn::AllInf => f64::INFINITY,
+            RealFn::AbsSum => x.iter().map(|v| v.abs()).sum::<f64>(),
             RealFn::OffsetSphere => x.iter().map(|v| v * v).sum::<f64>() + 250.0,
             RealFn::InfPart => {
                 let mid = self.domains.first().map(|d| (d.0 + d.1) / 2.0).unwrap_or(0.0);
